@@ -17,7 +17,7 @@ int main(int argc, char **argv)
     int k; const char *mode;
     if (argc < 2) { fprintf(stderr, "usage: vdrv <mode> ...\n"); return 2; }
     mode = argv[1];
-    VD.prop = "C00"; VD.outdir = ".";
+    VD.prop = "C00"; VD.outdir = "."; VD.mode = mode;
     for (k = 2; k + 1 < argc; k++) {
         if (!strcmp(argv[k], "--prop")) VD.prop = argv[k + 1];
         else if (!strcmp(argv[k], "--out")) VD.outdir = argv[k + 1];
